@@ -114,7 +114,7 @@ VARIANTS = [
                 ({region_start} <= end AND {region_end} >= end)
             )\"\"\".format(""", """                \"\"\"(start <= {region_start} AND end >= {region_end})\"\"\".format(""")),
     # ------------------------------------------------------------------ C07
-    M("C07", "separators-shortest-first", P, 'for sep in (" ; ", "; ", ";"):', 'for sep in (";", "; ", " ; "):', "R2"),
+    M("C07", "separators-shortest-first", P, 'for sep in (" ; ", "; ", ";"):', 'for sep in (";", "; ", " ; "):', "R3"),
     M("C07", "multival-split-other-literal", P, '            if dialect["repeated keys"]:\n                quals[key].append(val)\n            else:\n                vals = val.split(",")',
       '            if dialect["repeated keys"]:\n                quals[key].append(val)\n            else:\n                vals = val.split("|")', "R3"),
     M("C07", "quote-added-single", P, "val_str = '\"%s\"' % val_str", "val_str = \"'%s'\" % val_str"),
